@@ -69,9 +69,15 @@ def finalState (P : Proto) : St → List Op → St
   | st, [] => st
   | st, op :: ops => finalState P (step P st op).1 ops
 
+/-- histories with an injected transport fault (`fail K`): the engine model does not model transport errors; the Model
+    column makes no prediction ("="), the oracle below still judges what the implementation announced and persisted -/
+def hasFault (opsS : String) : Bool := (opsS.splitOn ";").any (·.startsWith "fail ")
+def noFaultOps (opsS : String) : List String := (opsS.splitOn ";").filter fun o => o != "" && !o.startsWith "fail "
+
 def handle (input : String) : String :=
   match input.splitOn "|" with
   | [proto, opsS] =>
+    if hasFault opsS then "=" else
     match setup proto with
     | none => "bad-proto"
     | some s =>
@@ -146,13 +152,39 @@ def oracle (input implOut : String) : String :=
       else implOut
   | _ => "bad-input"
 
-def tags (input : String) : String :=
+/-- overlap as OBSERVED on the implementation's own outcome line (used for histories with a transport fault, where the
+    engine model makes no prediction): a message of thread t is accepted while an action event raised earlier for t is
+    still undecided. `und` = threads of the undecided events, oldest first. -/
+def raisedOf (o : String) : Nat :=
+  match (o.splitOn " ").find? (fun w => w.startsWith "A" && (w.drop 1).toString.toNat?.isSome) with
+  | some w => (w.drop 1).toString.toNat?.getD 0
+  | none => 0
+
+def overlapsObserved : List String → List String → List String → Bool
+  | und, op :: ops, out :: outs =>
+    let base := (out.splitOn " ").headD ""
+    match op.splitOn " " with
+    | [k, t, _] =>
+      if k == "in" || k == "out" then
+        let accepted := base == "ok" || base == "okflt" || base == "flt"
+        (accepted && und.contains t) || overlapsObserved (und ++ List.replicate (raisedOf out) t) ops outs
+      else if k == "cont" then
+        overlapsObserved (und.eraseIdx (t.toNat?.getD und.length)) ops outs
+      else overlapsObserved und ops outs
+    | ["stop", i] => overlapsObserved (und.eraseIdx (i.toNat?.getD und.length)) ops outs
+    | _ => overlapsObserved und ops outs
+  | _, _, _ => false
+
+def tags (input : String) (impl : String := "") : String :=
   match input.splitOn "|" with
   | [proto, opsS] =>
     match setup proto with
     | none => ""
     | some s =>
-      match ((opsS.splitOn ";").filter (· != "")).mapM (parseOp s) with
+      if hasFault opsS then
+        (if !s.P.recheck && overlapsObserved [] ((opsS.splitOn ";").filter (· != "")) (impl.splitOn "|") then "C09-F2" else "")
+      else
+      match (noFaultOps opsS).mapM (parseOp s) with
       | none => ""
       | some ops => if !s.P.recheck && overlaps s.P init ops then "C09-F2" else ""
   | _ => ""
